@@ -220,9 +220,16 @@ Judge(r) ==
   IF r.obs.kind = "dates" /\ r.scn.kind \in DateKinds THEN JudgeDates(r)
   ELSE IF r.obs.kind = "nums" /\ r.scn.kind \in NumKinds THEN JudgeNums(r)
   ELSE IF r.obs.kind = "wire" /\ r.scn.kind \in WireKinds THEN JudgeWire(r)
-  \* panic / abort / hang of the whole batch (worker framework), or an observation of the wrong shape
+  \* panic / abort / hang of the worker (the whole batch is lost), or an observation of the wrong shape.  The driver
+  \* re-runs such a batch element by element; for a one-element batch the signature names the element's class.
   ELSE [ok |-> FALSE, n |-> 0, first |-> 0, nt |-> 0, skip |-> 0,
-        sig |-> [kind |-> r.scn.kind, fn |-> "any", elem |-> "batch", field |-> r.obs.kind]]
+        sig |-> [kind |-> r.scn.kind, fn |-> IF r.scn.kind \in NumKinds THEN r.scn.fn ELSE "any", field |-> r.obs.kind,
+                 elem |-> IF r.scn.kind \in {"days", "daylist", "secs"} /\ DateCount(r.scn) = 1
+                               /\ DayAt(r, 1) \in 0..2932896 /\ SodAt(r, 1) \in 0..86399
+                            THEN LET c == CivilFromDays(DayAt(r, 1)) IN YearClass(c.y) \o "/" \o DateClass(c) \o "/" \o ClockClass(SodAt(r, 1))
+                          ELSE IF r.scn.kind \in {"num-range", "num-list"} /\ NumCount(r.scn) = 1 /\ IsLimbs(LimbsAt(r, 1))
+                            THEN NumClass(r.scn.fn, LimbsAt(r, 1))
+                          ELSE "batch"]]
 
 TNext == /\ l <= Len(Rec) /\ l' = l + 1 /\ UNCHANGED vars
          /\ LET j == Judge(Rec[l])
